@@ -32,6 +32,8 @@ def map_val(v, f):
     t = v[0]
     if t == 'idx':
         return ('idx', f(v[1]))
+    if t == 'byteat':
+        return ('byteat', f(v[1]))
     if t == 'tuple':
         return ('tuple', tuple(map_val(x, f) for x in v[1]))
     if t == 'adt':
@@ -43,7 +45,7 @@ def collect_pos(v, acc):
     if v is None:
         return
     t = v[0]
-    if t == 'idx':
+    if t == 'idx' or t == 'byteat':
         acc.add(v[1])
     elif t == 'tuple':
         for x in v[1]:
@@ -88,6 +90,16 @@ def follow(rv, path):
         else:
             raise Unsupported(f'claim step {step}')
     return rv
+
+
+def refine_label(old, new):
+    if new is None or new == old:
+        return None
+    o = dict(old)
+    for (q, c) in new:
+        if o.get(q) != c:
+            return ('refine', q, c)
+    return None
 
 
 class Machine:
@@ -176,9 +188,20 @@ class Machine:
         return w
 
     def witness(self, origin, state=None):
-        """bytes read so far (one representative per class) + a shortest accepting continuation"""
-        tr = self.trace(origin) if origin is not None else []
-        pre = [self.spec.d.alpha.starts[c] for c in tr]
+        """bytes read so far (one representative per consumed position, as refined by later branches) + a shortest
+        accepting continuation"""
+        reads = []
+        if origin is not None:
+            for l in self.trace(origin):
+                if l[0] == 'read':
+                    reads.append(l[1])
+                elif l[0] == 'refine' and -l[1] <= len(reads):
+                    reads[len(reads) + l[1]] = l[2]
+        pre = []
+        for cs in reads:
+            reps = sorted(self.spec.d.alpha.starts[c] for c in cs)
+            nice = [r for r in reps if 0x21 <= r < 0x7f]
+            pre.append(nice[0] if nice else reps[0])
         cont = self.spec.shortest_continuation(state) if state is not None else []
         return bytes(pre), bytes(cont or [])
 
@@ -210,8 +233,10 @@ class Machine:
         for fr in stack:
             for v in fr[3]:
                 collect_pos(v, prog_refs)
+        # keep what is known about the last read byte; with track_all (demand-driven, for scanners that look again at a
+        # position they remembered) about every position the program still refers to
         if self.track_all:
-            nfacts = tuple(sorted((f(p), c) for (p, c) in facts if p in prog_refs or p >= -1))
+            nfacts = tuple(sorted((f(p), c) for (p, c) in facts if p in prog_refs))
         else:
             nfacts = tuple(sorted((f(p), c) for (p, c) in facts if p in prog_refs and p >= -1))
         return (nstack, f(start_rel), nfacts, at_end, nh)
@@ -233,17 +258,19 @@ class Machine:
         if p < 0:
             for (q, c) in cfg[2]:
                 if q == p:
-                    return ('byte', c)
+                    return ('byteat', p)
             raise Unsupported(f'read of a position whose content is not tracked (offset {p} from the cursor): re-scan of already consumed input')
         if p == 0:
             raise NeedRead()
         raise Unsupported('read ahead of the cursor')
 
     def consume(self, cfg):
+        """read the byte at the cursor: one successor per group of byte classes that lead to the same hypothesis set;
+        the group is split later, on demand, where the program distinguishes its members"""
         stack, start_rel, facts, at_end, hyps = cfg
         if at_end is not False:
             raise Unsupported('read at the cursor without a successful bounds test: possible out-of-bounds index')
-        out = []
+        groups = {}
         for c in self.spec.byte_classes:
             nh = set()
             for (s, pl) in hyps:
@@ -252,12 +279,37 @@ class Machine:
                     nh.add((t, tuple((m, p - 1) for (m, p) in pl)))
             if not nh:
                 continue
-            nh = self.spec.closure(nh)
-            sh = lambda p: p - 1
-            nstack = tuple((fr[0], fr[1], fr[2], tuple(map_val(v, sh) for v in fr[3]), fr[4], fr[5]) for fr in stack)
-            nfacts = tuple((p - 1, cl) for (p, cl) in facts) + ((-1, c),)
-            out.append((c, (nstack, start_rel - 1, nfacts, None, frozenset(nh))))
+            groups.setdefault(frozenset(nh), []).append(c)
+        out = []
+        sh = lambda p: p - 1
+        nstack = tuple((fr[0], fr[1], fr[2], tuple(map_val(v, sh) for v in fr[3]), fr[4], fr[5]) for fr in stack)
+        shifted = tuple((p - 1, cl) for (p, cl) in facts)
+        for nh, cs in groups.items():
+            nh2 = frozenset(self.spec.closure(nh))
+            cls = frozenset(cs)
+            out.append((('read', cls), (nstack, start_rel - 1, shifted + ((-1, cls),), None, nh2)))
         return out
+
+    def classes_of(self, cfg, v):
+        for (q, c) in cfg[2]:
+            if q == v[1]:
+                return c
+        raise Unsupported('byte value whose position is no longer tracked')
+
+    def split_byte(self, cfg, v, outcome):
+        """evaluate outcome(class) for every class the byte may be in; returns [(result, facts')] — one entry per distinct
+        result, with the fact for that position refined to the classes giving it"""
+        cls = self.classes_of(cfg, v)
+        parts = {}
+        for c in cls:
+            parts.setdefault(outcome(c), []).append(c)
+        if len(parts) == 1:
+            return [(next(iter(parts)), cfg[2])]
+        res = []
+        for r, cs in parts.items():
+            nf = tuple((q, frozenset(cs) if q == v[1] else c0) for (q, c0) in cfg[2])
+            res.append((r, nf))
+        return res
 
     def place_get(self, cfg, locs, place):
         v = locs[place['local']]
@@ -285,9 +337,6 @@ class Machine:
     def concrete(self, v):
         if v[0] == 'int':
             return v[1]
-        if v[0] == 'byte':
-            lo, hi = self.spec.class_range(v[1])
-            return lo if lo == hi else -1 - v[1]
         raise Unsupported(f'branch on {v[0]}')
 
     # ------------------------------------------------------------------ stepping
@@ -299,7 +348,8 @@ class Machine:
 
         def goto(nlocs, nbb, nsi, **kw):
             ns = stack[:-1] + ((fn, nbb, nsi, tuple(nlocs), dest, ret_bb),)
-            return (ns, start_rel, facts, kw.get('at_end', at_end), hyps)
+            nf = kw.get('facts')
+            return (ns, start_rel, facts if nf is None else nf, kw.get('at_end', at_end), hyps)
 
         def operand(op):
             if op['k'] in ('copy', 'move'):
@@ -326,10 +376,12 @@ class Machine:
                 raise Unsupported('assignment to a projection')
             res = self.eval_rvalue(cfg, locs, st['rv'], operand)
             out = []
-            for (val, ae) in res:
+            for r in res:
+                val, ae = r[0], r[1]
+                nf = r[2] if len(r) > 2 else None
                 nl = list(locs)
                 nl[st['place']['local']] = val
-                out.append((None, goto(nl, bb, si + 1, at_end=ae)))
+                out.append((refine_label(facts, nf), goto(nl, bb, si + 1, at_end=ae, facts=nf)))
             return out
         t = block['term']
         k = t['k']
@@ -337,12 +389,21 @@ class Machine:
             return [(None, goto(locs, t['target'], 0))]
         if k == 'switch':
             v = operand(t['op'])
+            if v[0] == 'byteat':
+                def outcome(c):
+                    lo, hi = self.spec.class_range(c)
+                    tg = t['otherwise']
+                    for val, b in t['targets']:
+                        if lo <= val <= hi:
+                            if lo != hi:
+                                raise Unsupported('alphabet partition does not separate a switch constant')
+                            tg = b
+                    return tg
+                parts = self.split_byte(cfg, v, outcome)
+                if len(parts) == 1:
+                    return [(None, goto(locs, parts[0][0], 0))]
+                return [(refine_label(facts, nf), goto(locs, tg, 0, facts=nf)) for tg, nf in parts]
             n = self.concrete(v)
-            if v[0] == 'byte':
-                lo, hi = self.spec.class_range(v[1])
-                for val, b in t['targets']:
-                    if lo <= val <= hi and lo != hi:
-                        raise Unsupported('alphabet partition does not separate a switch constant')
             tgt = t['otherwise']
             for val, b in t['targets']:
                 if val == n:
@@ -373,16 +434,20 @@ class Machine:
                 cb = self.bodies[name]
                 nl = [None] * len(cb['locals'])
                 for i, a in enumerate(args):
+                    if a is not None and a[0] == 'int' and 'usize' in cb['locals'][i + 1] and i >= 1:
+                        a = ('idx', a[1] + start_rel)     # an index counted from the start of the input
                     nl[i + 1] = a
                 if len(stack) > 12:
                     raise Unsupported('call depth')
                 ns = stack + ((name, 0, 0, tuple(nl), t['dest']['local'], t['target']),)
                 return [(None, (ns, start_rel, facts, at_end, hyps))]
             out = []
-            for (val, ae) in self.summary(cfg, name, args):
+            for r in self.summary(cfg, name, args):
+                val, ae = r[0], r[1]
+                nf = r[2] if len(r) > 2 else None
                 nl = list(locs)
                 nl[t['dest']['local']] = val
-                out.append((None, goto(nl, t['target'], 0, at_end=ae)))
+                out.append((refine_label(facts, nf), goto(nl, t['target'], 0, at_end=ae, facts=nf)))
             return out
         if k == 'unreachable':
             return []
@@ -470,25 +535,23 @@ class Machine:
         if op in ('Eq', 'Ne', 'Lt', 'Le', 'Gt', 'Ge'):
             def rel(l, r):
                 return {'Eq': l == r, 'Ne': l != r, 'Lt': l < r, 'Le': l <= r, 'Gt': l > r, 'Ge': l >= r}[op]
-            if a[0] == 'byte' or b[0] == 'byte':
-                if a[0] == 'byte' and b[0] == 'int':
-                    lo, hi = self.spec.class_range(a[1])
-                    c = b[1]
-                    flip = False
-                elif b[0] == 'byte' and a[0] == 'int':
-                    lo, hi = self.spec.class_range(b[1])
-                    c = a[1]
-                    flip = True
+            if a[0] == 'byteat' or b[0] == 'byteat':
+                if a[0] == 'byteat' and b[0] == 'int':
+                    bv, c, flip = a, b[1], False
+                elif b[0] == 'byteat' and a[0] == 'int':
+                    bv, c, flip = b, a[1], True
                 else:
                     raise Unsupported('comparison of two input bytes')
-                if lo != hi:
-                    # a whole class against a constant: decided only if the class lies on one side
-                    res = {rel(c, x) if flip else rel(x, c) for x in (lo, hi)} | ({rel(c, c)} if lo <= c <= hi else set())
-                    if lo <= c <= hi or len(res) != 1:
+
+                def outcome(cl):
+                    lo, hi = self.spec.class_range(cl)
+                    if lo <= c <= hi and lo != hi:
                         raise Unsupported('alphabet partition does not separate a compared constant')
-                    return [(INT(int(res.pop())), ae)]
-                l, r = (c, lo) if flip else (lo, c)
-                return [(INT(int(rel(l, r))), ae)]
+                    res = {(rel(c, x) if flip else rel(x, c)) for x in (lo, hi)}
+                    if len(res) != 1:
+                        raise Unsupported('alphabet partition does not separate a compared constant')
+                    return int(res.pop())
+                return [(INT(r), ae, nf) for r, nf in self.split_byte(cfg, bv, outcome)]
             if a[0] == 'int' and b[0] == 'int':
                 return [(INT(int(rel(a[1], b[1]))), ae)]
             if a[0] == 'len' and b[0] == 'int':
@@ -559,9 +622,8 @@ class Machine:
             return [(INT(1 - v[1]), a2) for (v, a2) in r]
         if 'is_ascii_alphabetic' in name or 'is_ascii_alphanumeric' in name or 'is_ascii_digit' in name:
             v = args[0]
-            if v[0] != 'byte':
+            if v[0] != 'byteat':
                 raise Unsupported('ascii class test on a non-byte value')
-            lo, hi = self.spec.class_range(v[1])
 
             def test(x):
                 ch = chr(x)
@@ -570,10 +632,14 @@ class Machine:
                 if 'alphanumeric' in name:
                     return x < 128 and ch.isalnum()
                 return x < 128 and ch.isdigit()
-            r = {test(x) for x in range(lo, hi + 1)}
-            if len(r) != 1:
-                raise Unsupported('alphabet partition does not separate an ascii class')
-            return [(INT(int(r.pop())), ae)]
+
+            def outcome(cl):
+                lo, hi = self.spec.class_range(cl)
+                r = {test(x) for x in range(lo, min(hi, 255) + 1)}
+                if len(r) != 1:
+                    raise Unsupported('alphabet partition does not separate an ascii class')
+                return int(r.pop())
+            return [(INT(r), ae, nf) for r, nf in self.split_byte(cfg, v, outcome)]
         if name.endswith('then_some'):
             if self.concrete(args[0]):
                 return [(('adt', 'Option', 1, (args[1],)), ae)]
